@@ -430,6 +430,19 @@ def run_item(item):
             if r2.rc != 0 or r2.out != res.out:
                 return violated('c12:show-config-round-trip:%s' % opt, 'the style reported by --show-config (%r) for %r does not reproduce the rendering when supplied again' % (back, shown),
                                 'identical rendering', 'rc %d, %s' % (r2.rc, 'different bytes' if r2.rc == 0 else r2.err[:100]), run=r2, sets=sets)
+            if rng.random() < 0.5:
+                # ... also when it is supplied where options usually live: as written by --show-config, in a git config file
+                # (where an unquoted '#' would start a comment)
+                cfgp = runner.write_file('c12_rt.gitconfig', '[delta]\n    %s = %s\n' % (opt, back))
+                data, parent = probe_input(opt)
+                a3 = ['--paging', 'never', '--config', cfgp, '--syntax-theme', 'none', '--true-color', 'always' if true_color else 'never', '--dark'] + PROBES[opt][1]
+                r3 = runner.run_delta(a3, data, parent_argv=parent)
+                executions += 1
+                counters['round_trips_gitconfig'] = 1
+                if r3.rc != 0 or r3.out != res.out:
+                    return violated('c12:show-config-round-trip-gitconfig:%s' % opt, 'the line --show-config prints for %r (%s = %s), put into a git config file, does not reproduce '
+                                    'the rendering' % (shown, opt, back), 'identical rendering', 'rc %d, %s' % (r3.rc, 'different bytes' if r3.rc == 0 else r3.err[:100]),
+                                    run=r3, sets=sets)
     nontrivial = bool(ref.attrs) or ref.fg[0] in ('idx', 'rgb') or ref.bg[0] in ('idx', 'rgb')
     o = held(sig=(opt, ' '.join(shown.lower().replace('"', '').split()), true_color), nontrivial=nontrivial, counters=counters, sets=sets,
              sample={'option': opt, 'style': shown, 'mode': '24bit' if true_color else '256', 'cell': repr(cells[0])})
